@@ -186,6 +186,37 @@ impl<'tcx> Dumper<'tcx> {
                 return format!("[\"const\",{},{}]", esc(&tys), esc(&bits.to_string()));
             }
         }
+        // reference to a scalar (promoted `&1` etc.): read the pointee
+        if let ty::Ref(_, inner, _) = t.kind() {
+            if matches!(inner.kind(), ty::Bool | ty::Char | ty::Int(_) | ty::Uint(_) | ty::Float(_)) {
+                if let Ok(val) = c.const_.eval(tcx, env, c.span) {
+                    if let mir::ConstValue::Scalar(rustc_middle::mir::interpret::Scalar::Ptr(ptr, _)) = val {
+                        let (prov, offset) = ptr.into_raw_parts();
+                        if let Some(rustc_middle::mir::interpret::GlobalAlloc::Memory(m)) =
+                            tcx.try_get_global_alloc(prov.alloc_id())
+                        {
+                            if let Ok(layout) = tcx.layout_of(env.as_query_input(*inner)) {
+                                let sz = layout.size.bytes_usize();
+                                let off = offset.bytes_usize();
+                                let a = m.inner();
+                                if off + sz <= a.len() {
+                                    let b = a.inspect_with_uninit_and_ptr_outside_interpreter(off..off + sz);
+                                    let mut bits: u128 = 0;
+                                    for (i, x) in b.iter().enumerate() {
+                                        bits |= (*x as u128) << (8 * i);
+                                    }
+                                    return format!(
+                                        "[\"const\",{},{}]",
+                                        esc(&self.ty(*inner)),
+                                        esc(&bits.to_string())
+                                    );
+                                }
+                            }
+                        }
+                    }
+                }
+            }
+        }
         // unevaluated path to a const item?
         let mut item = String::from("null");
         if let Const::Unevaluated(u, _) = c.const_ {
